@@ -1,5 +1,5 @@
 """C17 - renaming and copying states preserves behaviour (DESIGN.md section 4, C17)."""
-from sim.chart import Cfg, swarm, gen_spec, build_api, PREAMBLE, tid
+from sim.chart import Cfg, swarm, gen_spec, build_api, PREAMBLE, tid, legal_transition
 from sim.engine import Result, Abandon, fp
 from sim.semrun import Sim, standard_ops, replay_script
 from sim.checks import common
@@ -53,7 +53,28 @@ def run(ch, tier):
     if mode == 'copy':
         cfg.final = False
     sp = gen_spec(ch.s('chart'), cfg)
-    a = Sim(sp)
+    rs = ch.s('rename')
+    # "twin" transitions: equal in every field except the priority, with one of intermediate priority in between
+    # (the generated ones all differ by their action text, so none of them ever compare equal)
+    twins = []
+    srcs_ = [n for n in sorted(sp.states) if sp.kind(n) in ('basic', 'compound', 'orthogonal')]
+    evs_ = sorted({t.event for t in sp.trans if t.event})
+    if srcs_ and evs_ and rs.flag(1, 2):
+        src = rs.pick(srcs_)
+        tg = [n for n in sorted(sp.states) if legal_transition(sp, src, n)]
+        if len(tg) >= 2:
+            t2 = rs.pick(tg)
+            t3 = rs.pick([n for n in tg if n != t2])
+            twins = [(src, t2, rs.pick(evs_), t3)]
+
+    def add_twins(chart):
+        for src, t2, evn, t3 in twins:
+            chart.add_transition(Transition(src, t2, event=evn, action='P.act(9000, event)', priority=-5))
+            chart.add_transition(Transition(src, t3, event=evn, action='P.act(9001, event)', priority=0))
+            chart.add_transition(Transition(src, t2, event=evn, action='P.act(9000, event)', priority=5))
+    base = build_api(sp)
+    add_twins(base)
+    a = Sim(sp, statechart=base)
     outs = []
     touched = set()
     for r in standard_ops(a, ch, tier, hi=25 if tier == 'quick' else 60):
@@ -64,9 +85,9 @@ def run(ch, tier):
             touched.update(r.ms.exited_states)
             touched.update(t.source for t in r.ms.transitions)
     script = a.script
-    rs = ch.s('rename')
     if mode == 'rename':
         sc = build_api(sp)
+        add_twins(sc)
         before = {tid(t): t.internal for t in sc.transitions}
         ren = {}
         for n in sorted(sp.states):
@@ -90,6 +111,7 @@ def run(ch, tier):
         interesting = set(ren) & touched
     else:
         guest = build_api(sp)
+        add_twins(guest)
         host_kind = rs.pick(['compound-root', 'region'])
         host = Statechart('host', preamble=PREAMBLE)
         if host_kind == 'compound-root':
@@ -126,6 +148,9 @@ def run(ch, tier):
             bad = sorted(i for i in internal_guest if internal_guest[i] != internal_host.get(i))
             return res.fail('internal-flag-changed', 'copy_from_statechart: transitions %s changed Transition.internal (or were lost)' % (
                 ['t%d' % i for i in bad]), **ctx)
+        copied = len([t for t in host.transitions if t.action])
+        if copied != len(guest.transitions):
+            return res.fail('transitions-lost-by-copy', 'the guest declares %d transitions, %d arrived in the host' % (len(guest.transitions), copied), **ctx)
         b = Sim(sp, statechart=host)
         interesting = touched
     for i, r in enumerate(replay_script(b, script)):
@@ -137,6 +162,7 @@ def run(ch, tier):
             return res.fail('behaviour-differs', 'step %d of the %s chart: %s is %r, original: %r' % (
                 i, 'renamed' if mode == 'rename' else 'host', f, x, y), **ctx)
     res.stats['runs_' + mode] += 1
+    res.stats['runs_with_twin_transitions'] += int(bool(twins))
     special = [t for t in sp.trans if t.tgt is None and t.src in interesting]
     if special or any(s.initial in interesting or s.memory in interesting for s in sp.states.values()):
         res.nontrivial.add(fp((sp.fingerprint(), mode, sorted(interesting), [repr(o) for o in script])))
